@@ -302,7 +302,7 @@ theorem spec_reader_agrees_with_norad_parser {f : Fmt} {lx : Lex} {rd : Str → 
 made of (`parseAnchor`, `parseGuideline`, `parsePoint`, `parseComponent`, `parseImage`, `parseAdvance`, `parseUnicode`,
 the `contour` and `glyph` start tags) return exactly the described values on the attribute lists `Ufo3.specWrite`
 produces (its own attribute order; defaults spelt out: `type="offcurve"`, `smooth="no"`, all six coefficients).
-The composition over a whole document is OPEN (see docs/notes/C05.md). -/
+The composition over a whole document is `norad_parser_reads_spec_document` below. -/
 theorem norad_parser_reads_spec_writer {rd : Str → Option Nat} {rdr : Render} {ok : Nat → Prop}
     (hc : ParseCodec rd rdr ok) (seen : List Str) :
     (∀ a : AnchorD, ok a.x → ok a.y → (∀ n, a.name = some n → validName (L n) = true) → okColor ok a.color →
@@ -345,22 +345,40 @@ theorem norad_parser_reads_spec_writer {rd : Str → Option Nat} {rdr : Render} 
 
 /-- **norad's parser reads a WHOLE document of the specification-level writer** (`Ufo3.specWrite` itself, not a
 variant: every attribute spelt out, also the defaults `type="offcurve"`, `smooth="no"`, all six coefficients, both
-advance attributes; its own attribute and element order).  `eventsOf rl (specWrite rdr d)` is the canonical event list
-of the written tree; `gdocOf libD d` is the document of the glif builder's generative grammar (`Lemmas/GlifGen.lean`)
-describing the same glyph, and `glyphOf nc libD d` the glyph it describes in closed form (`interp_gdocOf`; what is
-returned is `load_object_libs` of it, as for every document).  The proof shows that every event of
-`specWrite` makes the parser do the same thing, in every format-2 state, as the grammar's rendering of the same object
-with a norad-style spelling `F` that reads back (`StepSame`, `body_same`), and concludes with
-`Glif.legal_accepted_gdoc`.  Hypotheses: a valid glyph name; `DescOK` (numbers in the codec's domain, valid names, colours
-in 0..1 that survive three decimals, coefficients and advance the encoder's gates would not alter); the described
-document is legal in the glif builder's sense (`Glif.LegalItems`: identifiers valid and pairwise different, contours
-`C11.accepts`-legal, angle/name/code-point rules); the lib element's text is a dictionary; both codecs. -/
+advance attributes; its own attribute and element order), **with hypotheses on the description only**.
+`eventsOf rl (specWrite rdr d)` is the canonical event list of the written tree; `glyphOf nc libD d` the glyph the
+description describes, in closed form (what is returned is `load_object_libs` of it, as for every document).
+`DescLegal ok nc d` = the rules of a legal glyph stated on `GlyphD`: valid glyph name, `DescOK` (numbers in the codec's
+domain, valid names, colours in 0..1 that survive three decimals, coefficients and advance the encoder's gates would not
+alter, guideline shape and angle range), image file name without directory, identifiers valid and pairwise different
+across ALL objects (`descIdents`), every contour `C11.Legal` (the declarative rule of C11, via `accepts_iff_legal`).
+It is decidable: `descLegalB ok nc d = true ↔ DescLegal ok nc d` (`descLegalB_iff`).  Proof: `legalItems_of_descLegal`
+derives the glif builder's `LegalItems` of the described document (incl. "at most one advance/outline/lib/note/image"),
+every event of `specWrite` makes the parser do the same thing, in every format-2 state, as the generative grammar's
+rendering of the same object (`StepSame`, `body_same`), and `Glif.legal_accepted_gdoc` concludes. -/
 theorem norad_parser_reads_spec_document {F : Fmt} {rd : Str → Option Nat} {rdr : Render} {nc : Color → Color}
     {ok : Nat → Prop} (hF : Codec F rd nc ok) (hP : ParseCodec rd rdr ok) (rl : String → LibV) (libD : Dict) (d : GlyphD)
-    (hn : validName (L d.name) = true) (hv : DescOK ok nc d) (hl : ∀ t, d.lib = some t → rl t = .dict libD)
-    (hL : LegalItems ok (itemsOf libD d)) :
-    parseGlif rd (eventsOf rl (specWrite rdr d)) = loadObjectLibs (glyphOf nc libD d) := by
-  rw [← interp_gdocOf]; exact parse_specWrite hF hP rl libD d hn hv hl hL
+    (hd : DescLegal ok nc d) (hl : ∀ t, d.lib = some t → rl t = .dict libD) :
+    parseGlif rd (eventsOf rl (specWrite rdr d)) = loadObjectLibs (glyphOf nc libD d) :=
+  parse_specWrite_legal hF hP rl libD d hd hl
+
+/-- the rules are decidable -/
+theorem desc_legal_decidable (ok : Nat → Prop) [DecidablePred ok] (nc : Color → Color) (d : GlyphD) :
+    descLegalB ok nc d = true ↔ DescLegal ok nc d := descLegalB_iff ok nc d
+
+/-- **the other legal spellings of the same description** (what the independent writer varies), as an instance of the
+glif builder's `legal_accepted`: defaults OMITTED (no `type` on off-curve points, no `smooth="no"`, no coefficient at
+its default, no `±0` advance attribute), numbers and colours in ANY spelling `F` that reads back, the attributes of
+every element in ANY order (`EvsPerm`), declaration and comments before the root, `formatMinor="0"` written or not,
+anything after `</glyph>`: accepted, and the glyph is the one `specWrite`'s document yields. -/
+theorem norad_parser_reads_other_spellings {F : Fmt} {rd : Str → Option Nat} {nc : Color → Color} {ok : Nat → Prop}
+    (hF : Codec F rd nc ok) (libD : Dict) (d : GlyphD) (hd : DescLegal ok nc d) (pro tr : List Ev) (minor : Bool)
+    (hp : ∀ e, e ∈ pro → isProlog e = true)
+    (hol : ∀ v, dictGet objectLibsKey (glyphOf nc libD d).lib = some v → ∃ ol, v = PV.dict ol ∧ AllDicts ol)
+    {evs : List Ev}
+    (hperm : EvsPerm (render F { prolog := pro, name := L d.name, minor := minor, items := itemsOf libD d, trailer := tr }) evs) :
+    ∃ g, parseGlif rd evs = .ok g ∧ loadObjectLibs (glyphOf nc libD d) = .ok g :=
+  parse_other_spellings hF libD d hd pro tr minor hp hol hperm
 
 /-! non-vacuity of the two codec hypotheses (the glif builder's `F0`, `R0`, `nc0`, `ok0`: every number is 0) -/
 
@@ -397,39 +415,20 @@ def d0 : GlyphD :=
     contours := [⟨none, [⟨0, 0, .line, false, none, some "p"⟩]⟩],
     components := [⟨"b", ⟨0, 0, 0, 0, 0, 0⟩, some "k"⟩], lib := none }
 
-theorem descOK_d0 : DescOK ok0 nc0 d0 := by
-  refine ⟨rfl, rfl, Or.inr rfl, Or.inr rfl, ?_, ?_, ?_, ?_, ?_, ?_⟩
-  · intro c hc; simp [d0] at hc; subst hc; exact ⟨by decide, by decide⟩
-  · intro i hi; cases hi
-  · intro g hg; simp [d0] at hg
-  · intro a ha; simp [d0] at ha; subst ha
-    exact ⟨rfl, rfl, (by intro n hn; cases hn; decide), (by intro x hx; cases hx), (by intro x hx; cases hx)⟩
-  · intro c hc p hp; simp [d0] at hc; subst hc; simp at hp; subst hp
-    exact ⟨rfl, rfl, (by intro n hn; cases hn)⟩
-  · intro k hk; simp [d0] at hk; subst hk
-    exact ⟨by decide, ⟨rfl, rfl, rfl, rfl, rfl, rfl⟩,
-      ⟨Or.inl (by decide), Or.inr rfl, Or.inr rfl, Or.inl (by decide), Or.inr rfl, Or.inr rfl⟩⟩
+instance : DecidablePred ok0 := fun b => by unfold ok0; infer_instance
 
-theorem legal_d0 : LegalItems ok0 (itemsOf [] d0) := by
-  refine ⟨?_, by decide, by decide, by decide, by decide, by decide, by decide⟩
-  intro it hit
-  simp [itemsOf, d0] at hit
-  rcases hit with h | h | h | h <;> subst h
-  · exact ⟨rfl, rfl⟩
-  · exact ⟨by decide, by decide⟩
-  · exact ⟨rfl, rfl, (by intro n hn; cases hn; decide), (by intro i hi; cases hi; decide)⟩
-  · intro oit ho
-    simp [oitsOf, d0] at ho
-    rcases ho with h | h <;> subst h
-    · refine ⟨?_, (by decide), (by intro i hi; cases hi)⟩
-      intro cit hc; simp at hc; subst hc
-      exact ⟨rfl, rfl, (by intro n hn; cases hn), (by intro i hi; cases hi; decide)⟩
-    · exact ⟨(by decide), ⟨rfl, rfl, rfl, rfl, rfl, rfl⟩, (by intro i hi; cases hi; decide)⟩
+/-- the sample description is legal: by evaluation of the executable rules -/
+theorem descLegal_d0 : DescLegal ok0 nc0 d0 := (desc_legal_decidable ok0 nc0 d0).1 (by decide)
 
 -- the document theorem applies: its hypotheses are satisfiable together
 example : parseGlif R0 (eventsOf (fun _ => .bad) (specWrite render0 d0)) = loadObjectLibs (glyphOf nc0 [] d0) :=
-  norad_parser_reads_spec_document codec0 parseCodec0 (fun _ => .bad) [] d0 (by decide) descOK_d0
-    (by intro t ht; cases ht) legal_d0
+  norad_parser_reads_spec_document codec0 parseCodec0 (fun _ => .bad) [] d0 descLegal_d0 (by intro t ht; cases ht)
+
+-- and so does the corollary: `specWrite`'s own event list is one of the spellings (trivial permutation excluded, the
+-- gated rendering with `F0` is)
+example : ∃ g, parseGlif R0 (render F0 (gdocOf [] d0)) = .ok g ∧ loadObjectLibs (glyphOf nc0 [] d0) = .ok g :=
+  norad_parser_reads_other_spellings codec0 [] d0 descLegal_d0 [.decl] [] false (by intro e he; simp at he; subst he; rfl)
+    (by intro v hv; simp [glyphOf, d0, dictGet] at hv) (evsPerm_refl _)
 
 -- the element theorems apply (their codec hypothesis is satisfiable)
 example := norad_parser_reads_spec_writer parseCodec0 []
